@@ -4,6 +4,7 @@ KernelCupy/KernelPyopencl (driven with recording fakes) vs the model's `geometry
 real CPU kernels (serial + OpenMP), host-simulated OpenCL/CUDA launches, qualifier-erased token equality of the
 accessor API across targets, `__global` on every pointer, host compiler acceptance."""
 import collections
+import json
 import os
 import random
 import re
@@ -436,6 +437,53 @@ def check_counts(where, n, cnt, y, weight, fails, ctx, slack, m=None):
         fails.append(common.Failure("oracle", "C16:context-lines", f"{where} n={n}: y is {list(y[:4])}.., expected {weight} per index (lines active only in their named contexts)", dict(ctx, n=n, where=where)))
 
 
+def run_contexts(tier, seed, fails, tags):
+    """C15 on the text the CONTEXTS assemble: `ContextPyopencl.build_kernels` / `ContextCupy.build_kernels` run unchanged against
+    stand-ins of pyopencl / cupy that record the program text (harness/gpuprobe.py, a process of its own); behind the headers, the
+    text given to each device compiler must be the cpu context's text up to target qualifiers"""
+    import subprocess
+    import sys
+    n = {"quick": 12, "thorough": 150}[tier]
+    probe = os.path.join(os.path.dirname(os.path.abspath(__file__)), "gpuprobe.py")
+    p = subprocess.run([sys.executable, probe, str(seed), str(n)], capture_output=True, text=True, timeout=1800)
+    recs = []
+    for l in p.stdout.splitlines():
+        try:
+            recs.append(json.loads(l))
+        except ValueError:
+            pass
+    if p.returncode != 0 or not recs or "error" in recs[0]:
+        raise common.Infra(f"gpuprobe: rc {p.returncode}: {(p.stderr or p.stdout)[-300:]}")
+    mark = "/*XOVERIF-END-OF-HEADERS*/"
+    for rec in recs:
+        ctx = {"component": "gpuprobe", "type": rec["type"], "seed": seed}
+        tags["contexts.types"] += 1
+        body = {}
+        for tgt in ("cpu", "opencl", "cuda"):
+            txt = rec.get(tgt)
+            if txt is None or mark not in txt:
+                fails.append(common.Failure("oracle", "C15:context-pipeline-raises", f"{tgt} context, {rec['type'][:160]}: "
+                                            f"{rec.get(tgt + '_error', 'no program text / marker lost')}", ctx))
+                body = None
+                break
+            toks = strip_quals(txt.split(mark, 1)[1])
+            if tgt == "cuda" and toks and toks[-1] == "}":
+                toks = toks[:-1]                    # the closing brace of the extern "C" wrapper
+            body[tgt] = toks
+        if not body:
+            continue
+        for tgt in ("opencl", "cuda"):
+            if body[tgt] != body["cpu"]:
+                k = next((i for i, (a, b) in enumerate(zip(body[tgt], body["cpu"])) if a != b), min(len(body[tgt]), len(body["cpu"])))
+                fails.append(common.Failure("oracle", "C15:context-tokens-differ",
+                                            f"{rec['type'][:160]}: the program text Context{'Pyopencl' if tgt == 'opencl' else 'Cupy'}.build_kernels "
+                                            f"hands to its compiler differs from the cpu context's in more than qualifiers: "
+                                            f"`{' '.join(body[tgt][max(0, k - 6):k + 6])}` vs cpu `{' '.join(body['cpu'][max(0, k - 6):k + 6])}`", ctx))
+            if any(ph in rec[tgt] for ph in PLACEHOLDERS):
+                fails.append(common.Failure("oracle", "C15:placeholder-left", f"placeholder left in the {tgt} context's program text ({rec['type'][:120]})", ctx))
+    return len(recs)
+
+
 def run_all(tier, seed, parts=("text", "launch")):
     fails, mism, tags, samples = [], [], collections.Counter(), []
     lines = distinct = evals = 0
@@ -443,6 +491,9 @@ def run_all(tier, seed, parts=("text", "launch")):
         a, b = run_text(tier, seed, fails, mism, tags, samples)
         lines += a
         distinct += b
+        k = run_contexts(tier, seed, fails, tags)
+        lines += k
+        distinct += k
     if "launch" in parts:
         a, b = run_launch(tier, seed, fails, mism, tags, samples)
         lines += a
